@@ -37,7 +37,7 @@ func genC12(rng *rand.Rand) c12Case {
 	c.Buffered = rng.IntN(5)
 	c.PollPending = rng.IntN(2) == 0
 	c.GateSend = rng.IntN(3) == 0
-	c.Cause = closeCauses[rng.IntN(len(closeCauses))]
+	c.Cause = append(append([]string(nil), closeCauses...), "client-close-packet")[rng.IntN(len(closeCauses)+1)]
 	c.Sessions = 1 + rng.IntN(8)
 	if rng.IntN(6) == 0 {
 		c.Sessions = 9 + rng.IntN(12)
@@ -200,7 +200,9 @@ func runC12(c c12Case, r *rep.Report) (key, msg string, stats map[string]int64) 
 				if cause == "parse-error" {
 					cause = "close-false" // an undecodable polling payload does not close the session
 				}
-				if cause == "ping-timeout" {
+				if cause == "client-close-packet" {
+					cl.Post(refcodec.Packet{Type: refcodec.Close})
+				} else if cause == "ping-timeout" {
 					// the ping itself answers the pending poll; a conformant client polls again
 					time.Sleep(PI + time.Millisecond)
 					rig.Wait()
